@@ -21,6 +21,10 @@ def run(rep, tier, wd):
         raise common.MachineryError("Uncertainty design model violated: %s" % res["violated"])
     rep.add_model(res, role="design (uncertainty labels / refinement): every bounded list of analysis results and "
                             "every bounded family of search conditions")
+    if tier != "quick":
+        rep.add_model(common.design_check("MC_Uncertainty", "MC_Uncertainty_big.cfg", workers=12, timeout=3000),
+                      role="design (uncertainty labels / refinement), larger bound: lists of <= 3 results, <= 4 conditions, "
+                           "four tokens (1.9 M cases; not replayed)")
     cases = []
     for s in states:
         if s["part"] == 1:
